@@ -138,8 +138,22 @@ func ramAddr(r *rig.Rng) uint16 {
 	return 0xa000 + uint16(r.Intn(0x2000))
 }
 
+// romImage returns a signature image of the given size with the header set; images are
+// cached per size (every controller copies its pages, and a ROM-only cartridge has one size).
+var romImages = map[uint8][]byte{}
+
+func romImage(cart, romCode, ramCode uint8) []byte {
+	img := romImages[romCode]
+	if img == nil {
+		img = rig.SignatureROM(cart, romCode, ramCode)
+		romImages[romCode] = img
+	}
+	img[0x147], img[0x148], img[0x149] = cart, romCode, ramCode
+	return img
+}
+
 func run(c *rig.Ctx) {
-	c.Require("histories", "reads_enabled", "reads_disabled", "dumps", "bank_selects_out_of_range", "enable_disable_toggles", "writes_stored", "writes_while_disabled")
+	c.Require("histories", "reads_enabled", "reads_disabled", "dumps", "bank_selects_out_of_range", "enable_disable_toggles", "writes_stored", "writes_while_disabled", "histories_with_rom_of_1MiB_or_more")
 	var cfgs []cfg
 	for _, cart := range []uint8{0x00, 0x01, 0x02, 0x03, 0x05, 0x06, 0x0f, 0x10, 0x11, 0x12, 0x13, 0x19, 0x1a, 0x1b, 0x1c, 0x1d, 0x1e} {
 		for _, rc := range []uint8{0, 2, 3, 4, 5} {
@@ -153,10 +167,19 @@ func run(c *rig.Ctx) {
 	per := c.N(60, 2000)
 	c.Part("histories", int64(len(cfgs))*per, func(i int64, r *rig.Rng) {
 		cf := cfgs[i/per]
-		img := rig.SignatureROM(cf.cart, 1, cf.ramCode)
-		if k, _ := ref.KindOf(cf.cart); k == ref.MBCNone {
-			img = rig.SignatureROM(cf.cart, 0, cf.ramCode)
+		// ROM sizes vary too: RAM banking must not depend on how large the ROM is
+		romCode := []uint8{1, 1, 2, 1, 4, 1, 5, 6}[(i%per)%8]
+		kk, _ := ref.KindOf(cf.cart)
+		if romCode > ref.MaxROMCode(kk) {
+			romCode = ref.MaxROMCode(kk)
 		}
+		if kk == ref.MBCNone {
+			romCode = 0
+		}
+		if romCode >= 5 {
+			c.Count("histories_with_rom_of_1MiB_or_more", 1)
+		}
+		img := romImage(cf.cart, romCode, cf.ramCode)
 		m, err := rig.New(img, rig.Opts{})
 		if err != nil {
 			c.Violate(fmt.Sprintf("cart%02X-ram%d-load", cf.cart, cf.ramCode), fmt.Sprintf("cartridge type %02X with RAM size code %d does not load: %v", cf.cart, cf.ramCode, err), nil)
